@@ -359,7 +359,7 @@ func (in *inst) check(r *vs.Result) []string {
 			if o.node != in.leaf.Path {
 				continue
 			}
-			got := mirrorTolerant(o.list, in.leaf.Received)
+			got := hx.MirrorTolerant(o.list, in.leaf.Received)
 			if got != in.nodeFinal[in.leaf.Path] && !deferredNoFilter {
 				add("C06", "event stream does not converge to the cache", "leaf %s: content at readiness %s + events %v gives %s but its cache holds %s", in.leaf.Path, o.list, in.leaf.Received, got, in.nodeFinal[in.leaf.Path])
 			}
@@ -386,50 +386,6 @@ func names(fs []int) []string {
 		out = append(out, hx.FilterNames[f])
 	}
 	return out
-}
-
-// mirrorTolerant replays events over a rendered list, ignoring events that do not move a key's version forward
-// (the snapshot at readiness may already include them).
-func mirrorTolerant(start string, events []string) string {
-	cur := map[string]string{}
-	ver := map[string]int{}
-	parse := func(obj string) (string, int) {
-		at := strings.Index(obj, "@")
-		var v int
-		fmt.Sscanf(obj[at+1:], "%d", &v)
-		return obj[:at], v
-	}
-	s := strings.Trim(start, "[]")
-	if s != "" {
-		for _, o := range strings.Split(s, " ") {
-			k, v := parse(o)
-			cur[k], ver[k] = o, v
-		}
-	}
-	for _, e := range events {
-		i := strings.Index(e, ":")
-		typ, obj := e[:i], e[i+1:]
-		k, v := parse(obj)
-		switch typ {
-		case "delete":
-			// applies to a present key unless the snapshot already holds something newer
-			if pv, ok := ver[k]; ok && v >= pv {
-				delete(cur, k)
-				delete(ver, k)
-			}
-		default:
-			// applies to an absent key (membership may flip back at the same version) or moves the version forward
-			if pv, ok := ver[k]; !ok || v > pv {
-				cur[k], ver[k] = obj, v
-			}
-		}
-	}
-	var ss []string
-	for _, v := range cur {
-		ss = append(ss, v)
-	}
-	sort.Strings(ss)
-	return "[" + strings.Join(ss, " ") + "]"
 }
 
 func (in *inst) outcome() string {
